@@ -17,6 +17,11 @@ CHECKS = {
         text="All 1521 ordered pairs of 39 representative numbers of every kind, for add/sub/mul/div/pow as free functions and as Number methods, are enumerated exhaustively and judged against the extended-number rules of the statement; random values per kind extend the table. Exhaustive over the table, exploration beyond.",
         note="Rules are only those the statement names; conventions outside it (x**0, 1**x, complex factor times oo, float zero times oo) are not judged. Exact 0 times a float returning exact 0 is the library's documented exception.",
         variants=["main"]),
+    "C29": dict(
+        engine="hy", technique="property-based testing: table of equal / one-ulp-apart values of different kinds + Hypothesis pairs (derived twins), exact-rational comparison oracle, algebraic laws between Lt/Le/Gt/Ge/Eq/Ne and subs instantiation",
+        text="Every generated ordered pair of real numbers (Integer, Rational, double, +-oo) is compared exactly in Python (doubles at their exact rational value) and all six relational constructors, their swapped forms and their symbolic forms instantiated by subs are judged against it. Exploration.",
+        note="NaN/zoo/complex operands are outside the property. oo versus an infinite double of the same sign is not judged. Known finding KF-C29-02 (comparison through double subtraction) is excluded by a narrow matcher (values within one ulp / outside double range).",
+        variants=["main"]),
 }
 
 NOT_APPLICABLE = {}
